@@ -86,7 +86,58 @@ Entries == <<
   [n |-> "GeoCoords.Reset", k |-> "validating", a |-> <<"lat", "num">>, o |-> 2],
   [n |-> "DMS.Encode", k |-> "validating", a |-> <<"num">>, o |-> 1],
   [n |-> "LambertConformalConic.SetScale", k |-> "validating", a |-> <<"lat", "k0">>, o |-> 1],
-  [n |-> "PolarStereographic.SetScale", k |-> "validating", a |-> <<"lat", "k0">>, o |-> 1] >>
+  [n |-> "PolarStereographic.SetScale", k |-> "validating", a |-> <<"lat", "k0">>, o |-> 1],
+  [n |-> "GeodesicLine.ArcPosition", k |-> "member", a |-> <<"num">>, o |-> 8],
+  [n |-> "GeodesicLineExact.Position", k |-> "member", a |-> <<"num">>, o |-> 7],
+  [n |-> "Geodesic.InverseLine", k |-> "member", a |-> <<"num", "num", "num", "num">>, o |-> 3],
+  [n |-> "Geodesic.DirectLine", k |-> "member", a |-> <<"num", "num", "num", "num">>, o |-> 3],
+  [n |-> "GeodesicExact.InverseLine", k |-> "member", a |-> <<"num", "num", "num", "num">>, o |-> 3],
+  [n |-> "RhumbLine.Position", k |-> "member", a |-> <<"num">>, o |-> 3],
+  [n |-> "Rhumb.Line", k |-> "member", a |-> <<"num", "num", "num">>, o |-> 3],
+  [n |-> "PolygonArea.AddEdge", k |-> "member", a |-> <<"num", "num">>, o |-> 2],
+  [n |-> "PolygonArea.TestPoint", k |-> "member", a |-> <<"num", "num">>, o |-> 2],
+  [n |-> "PolygonArea.TestEdge", k |-> "member", a |-> <<"num", "num">>, o |-> 2],
+  [n |-> "PolygonAreaExact.AddPoint", k |-> "member", a |-> <<"num", "num">>, o |-> 2],
+  [n |-> "PolygonAreaRhumb.AddPoint", k |-> "member", a |-> <<"num", "num">>, o |-> 2],
+  [n |-> "PolygonAreaRhumb.AddEdge", k |-> "member", a |-> <<"num", "num">>, o |-> 2],
+  [n |-> "Intersect.Next", k |-> "member", a |-> <<"num", "num", "num", "num">>, o |-> 2],
+  [n |-> "Intersect.Segment", k |-> "member", a |-> <<"num", "num", "num", "num", "num", "num", "num", "num">>, o |-> 2],
+  [n |-> "Intersect.All", k |-> "validating", a |-> <<"num", "num", "num", "num", "num", "num", "num">>, o |-> 1],
+  [n |-> "Geoid.eval", k |-> "member", a |-> <<"num", "num">>, o |-> 2],
+  [n |-> "Geoid.ConvertHeight", k |-> "member", a |-> <<"num", "num", "num">>, o |-> 1],
+  [n |-> "Geoid.CacheArea", k |-> "validating", a |-> <<"num", "num", "num", "num">>, o |-> 1],
+  [n |-> "MagneticModel.eval", k |-> "member", a |-> <<"num", "num", "num", "num">>, o |-> 6],
+  [n |-> "MagneticModel.Circle", k |-> "member", a |-> <<"num", "num", "num">>, o |-> 3],
+  [n |-> "MagneticCircle.eval", k |-> "member", a |-> <<"num">>, o |-> 6],
+  [n |-> "MagneticModel.FieldComponents", k |-> "member", a |-> <<"num", "num", "num">>, o |-> 4],
+  [n |-> "GravityModel.Gravity", k |-> "member", a |-> <<"num", "num", "num">>, o |-> 4],
+  [n |-> "GravityModel.Disturbance", k |-> "member", a |-> <<"num", "num", "num">>, o |-> 4],
+  [n |-> "GravityModel.GeoidHeight", k |-> "member", a |-> <<"num", "num">>, o |-> 1],
+  [n |-> "GravityModel.SphericalAnomaly", k |-> "member", a |-> <<"num", "num", "num">>, o |-> 3],
+  [n |-> "GravityModel.W", k |-> "member", a |-> <<"num", "num", "num">>, o |-> 4],
+  [n |-> "GravityModel.T", k |-> "member", a |-> <<"num", "num", "num">>, o |-> 4],
+  [n |-> "GravityModel.Circle", k |-> "member", a |-> <<"num", "num">>, o |-> 3],
+  [n |-> "GravityCircle.eval", k |-> "member", a |-> <<"num">>, o |-> 5],
+  [n |-> "SphericalHarmonic.eval", k |-> "member", a |-> <<"num", "num", "num">>, o |-> 4],
+  [n |-> "NormalGravity.misc", k |-> "member", a |-> <<"num">>, o |-> 4],
+  [n |-> "NormalGravity.J2ToFlattening", k |-> "member", a |-> <<"num", "num", "num", "num">>, o |-> 1],
+  [n |-> "NormalGravity.FlatteningToJ2", k |-> "member", a |-> <<"num", "num", "num", "num">>, o |-> 1],
+  [n |-> "UTMUPS.StandardZone", k |-> "validating", a |-> <<"num", "num">>, o |-> 1],
+  [n |-> "UTMUPS.Transfer", k |-> "validating", a |-> <<"num", "num">>, o |-> 2],
+  [n |-> "GeoCoords.ctorUTM", k |-> "validating", a |-> <<"num", "num">>, o |-> 2],
+  [n |-> "Ellipsoid.invlats", k |-> "member", a |-> <<"num">>, o |-> 5],
+  [n |-> "Ellipsoid.InverseIsometricLatitude", k |-> "member", a |-> <<"num">>, o |-> 1],
+  [n |-> "DAuxLatitude.DConvert", k |-> "member", a |-> <<"num", "num">>, o |-> 2],
+  [n |-> "Math.sincosde", k |-> "member", a |-> <<"num", "num">>, o |-> 2],
+  [n |-> "Math.misc", k |-> "member", a |-> <<"num">>, o |-> 5],
+  [n |-> "LocalCartesian.Reset", k |-> "member", a |-> <<"num", "num", "num">>, o |-> 3],
+  [n |-> "CassiniSoldner.Reset", k |-> "member", a |-> <<"num", "num">>, o |-> 4],
+  [n |-> "AlbersEqualArea.SetScale", k |-> "validating", a |-> <<"lat", "k0">>, o |-> 1],
+  [n |-> "Geohash.Reverse", k |-> "validating", a |-> <<"lat", "num">>, o |-> 2],
+  [n |-> "DMS.Encode3", k |-> "validating", a |-> <<"num">>, o |-> 1],
+  [n |-> "DMS.EncodePrec", k |-> "validating", a |-> <<"num">>, o |-> 1],
+  [n |-> "Utility.str", k |-> "validating", a |-> <<"num">>, o |-> 1],
+  [n |-> "GeoCoords.reps", k |-> "validating", a |-> <<"lat", "num">>, o |-> 1] >>
 
 (* ------------------------------------------------------------------------ *)
 (* Is a value class acceptable for an argument sort?  "no": the call must    *)
@@ -122,6 +173,11 @@ Dep(name, pos, out) ==
     \* geocentric: Z does not enter the longitude; the longitude does not enter Z
     [] name = "Geocentric.Reverse" /\ pos = 3 -> IF out = 2 THEN "no" ELSE "yes"
     [] name = "Geocentric.Forward" /\ pos = 2 -> IF out = 3 THEN "no" ELSE "yes"
+    [] name \in {"Geodesic.DirectLine", "Rhumb.Line"} /\ pos = 2 -> IF out = 2 THEN "yes" ELSE "no"                  \* lon1 only shifts lon2
+    [] name = "MagneticModel.FieldComponents" /\ pos = 3 -> IF out \in {1, 3} THEN "no" ELSE "yes"                \* Bz enters neither H nor D
+    [] name = "CassiniSoldner.Reset" /\ pos = 1 -> IF out = 2 THEN "yes" ELSE "no"            \* lat0 only shifts the northing
+    [] name = "MagneticModel.eval" /\ pos = 1 /\ out >= 4 -> "maybe"                          \* the rates are piecewise constant in time
+    [] name = "NormalGravity.misc" /\ out = 4 -> "no"                                                            \* d Phi / dY does not depend on X
     [] OTHER -> "default"
 
 \* outcome predicate for one executed call
